@@ -129,6 +129,8 @@ def analyse(ctx, b):
             # in another: the two are one decision, not two)
             if not s[1][1]:
                 l = s[1][0]
+                if any(isinstance(k_, tuple) and k_[0] == "seen" and k_[1] == l for k_, _ in bools):
+                    bools = frozenset((k_, x) for k_, x in bools if not (isinstance(k_, tuple) and k_[0] == "seen" and k_[1] == l))
                 v = None
                 if s[2][0] == "agg" and isinstance(s[2][1], dict) and s[2][1].get("adt") == "core::result::Result":
                     v = s[2][1]["variant"]
@@ -141,6 +143,8 @@ def analyse(ctx, b):
                 bools = frozenset([(l, x) for l, x in bools if l != s[1][0]] + [(s[1][0], v)])
         c = b.call_at(bb)
         if c is not None:
+            if any(isinstance(k_, tuple) and k_[0] == "seen" and k_[1] == c.dest[0] for k_, _ in bools):
+                bools = frozenset((k_, x) for k_, x in bools if not (isinstance(k_, tuple) and k_[0] == "seen" and k_[1] == c.dest[0]))
             if not c.dest[1]:
                 v = None
                 if (c.callee or "").endswith("Try>::branch") and c.args and op_place(c.args[0]) is not None and not op_place(c.args[0])[1]:
@@ -181,6 +185,15 @@ def analyse(ctx, b):
                 held = dict(bools).get(("var", sl)) if sl is not None else None
                 if held is not None and held not in labs:
                     return None   # infeasible: the variable holds the other variant on this path
+                # the same value is tested again further down (nested patterns, the drop glue of a partly moved value): the answer is the same
+                sj = si["subject"]
+                skey = ("seen", sj[1][0], repr(sj[1][1])) if sj[0] == "place" else (("seen", sj[1].dest[0], repr(list(sj[1].dest[1]) + list(sj[2]))) if sj[0] == "call" else None)
+                if skey is not None:
+                    prev = dict(bools).get(skey)
+                    if prev is not None and prev not in labs:
+                        return None
+                    if len(labs) == 1 and prev is None:
+                        bools = frozenset(list(bools) + [(skey, labs[0])])
             if si["kind"] == "disc" and si.get("adt") == "core::result::Result":
                 if labs == ["Err"] and (bb, succ) not in deferred:
                     sawerr = True
